@@ -160,6 +160,7 @@ func runC07(a *A) {
 		}
 	})
 	a.Rule("ordtab/comparator", 4, func() { a.ruleOrderComparator() })
+	a.Rule("shape/lossless-order-keys", 0, func() { a.ruleLosslessOrderKeys() }) // no float->int conversion today
 	a.Rule("whomay/having-binding", 3, func() { a.ruleHavingBinding() })
 	a.Rule("flow/delivered-batch-fresh", 7, func() { a.ruleDeliveredBatchFresh() })
 	a.Rule("shape/whole-call-slice", 4, func() { a.ruleWholeCallSlice("rsql", "aggregator") })
@@ -208,7 +209,8 @@ func (a *A) ruleOrderComparator() {
 		}
 		switch what {
 		case "numeric":
-			if c, ok := ex.Tuple.(*ssa.Call); ok && c.Call.StaticCallee() != nil && c.Call.StaticCallee().Name() == "numericFloat" {
+			// numericFloat, or any other module helper of shape (any) -> (number, bool) applied to a key
+			if c, ok := ex.Tuple.(*ssa.Call); ok && isNumericConversion(a, c) {
 				return true, ex.Index == 1
 			}
 		case "time":
@@ -237,7 +239,11 @@ func (a *A) ruleOrderComparator() {
 	}
 	branches := []branch{
 		{"numbers", roleBy(func(t *Term) bool {
-			return t.Kind == "extract" && t.Idx == 0 && t.Base.Kind == "call" && strings.HasSuffix(t.Base.Name, "numericFloat")
+			if t.Kind != "extract" || t.Idx != 0 || t.Base.Kind != "call" {
+				return false
+			}
+			c, ok := t.Base.Val.(*ssa.Call)
+			return ok && isNumericConversion(a, c)
 		}), mkAssume("numeric"), true},
 		{"times", func(t *Term) string {
 			if t.Kind == "param" && t.Idx == 0 {
@@ -734,6 +740,84 @@ func (a *A) ruleKeywordBySubstring(pkgs ...string) int {
 			why, reviewed := keywordSubstringReviewed[key]
 			a.Check(reviewed, key+"#keyword-by-substring", c.Pos(), "reviewed: "+why,
 				"the keyword "+k+" is detected by strings.Contains on the upper-cased text: an identifier or a string literal containing these letters takes the keyword's path")
+		})
+	}
+	return n
+}
+
+// isNumericConversion: a call of a module function (any) -> (float or integer, bool) — the idiom by
+// which the comparator turns a key into a number (numericFloat, an exact-integer variant, ...).
+func isNumericConversion(a *A, c *ssa.Call) bool {
+	f := c.Call.StaticCallee()
+	if f == nil || !a.fnInModule(f) {
+		return false
+	}
+	sig := f.Signature
+	if sig.Params().Len() != 1 || sig.Results().Len() != 2 {
+		return false
+	}
+	if _, ok := sig.Params().At(0).Type().Underlying().(*types.Interface); !ok {
+		return false
+	}
+	b0, ok := sig.Results().At(0).Type().Underlying().(*types.Basic)
+	if !ok || b0.Info()&types.IsNumeric == 0 {
+		return false
+	}
+	b1, ok := sig.Results().At(1).Type().Underlying().(*types.Basic)
+	return ok && b1.Kind() == types.Bool
+}
+
+// ruleLosslessOrderKeys: a helper that turns an ORDER BY key into an integer must not truncate: every
+// conversion float -> integer in a numeric-conversion helper reachable from compareOrderValues is
+// guarded by an integrality test of the converted value (x == math.Trunc(x) and the like, or a
+// comparison with the back-conversion). Otherwise keys that differ only in their fraction (20.2, 20.7)
+// compare equal and ORDER BY / LIMIT keep arbitrary rows.
+func (a *A) ruleLosslessOrderKeys() int {
+	cmp := a.Func("stream", "compareOrderValues")
+	n := 0
+	for fn := range a.ReachFrom([]*ssa.Function{cmp}) {
+		if fn.Pkg != cmp.Pkg {
+			continue
+		}
+		allInstrs(fn, func(in ssa.Instruction) {
+			cv, ok := in.(*ssa.Convert)
+			if !ok {
+				return
+			}
+			src, ok1 := cv.X.Type().Underlying().(*types.Basic)
+			dst, ok2 := cv.Type().Underlying().(*types.Basic)
+			if !ok1 || !ok2 || src.Info()&types.IsFloat == 0 || dst.Info()&types.IsInteger == 0 {
+				return
+			}
+			n++
+			guarded := false
+			for _, g := range guardsOf(cv.Block()) {
+				bo, ok := g.Cond.(*ssa.BinOp)
+				if !ok || bo.Op != token.EQL && bo.Op != token.NEQ {
+					continue
+				}
+				sense := g.Sense == (bo.Op == token.EQL)
+				if !sense {
+					continue
+				}
+				for _, pair := range [][2]ssa.Value{{bo.X, bo.Y}, {bo.Y, bo.X}} {
+					if pair[0] != cv.X {
+						continue
+					}
+					switch y := pair[1].(type) {
+					case *ssa.Call:
+						if f := y.Call.StaticCallee(); f != nil && f.Pkg != nil && f.Pkg.Pkg.Path() == "math" && (f.Name() == "Trunc" || f.Name() == "Floor" || f.Name() == "Round" || f.Name() == "Ceil") {
+							guarded = true
+						}
+					case *ssa.Convert:
+						if inner, ok := y.X.(*ssa.Convert); ok && inner.X == cv.X {
+							guarded = true
+						}
+					}
+				}
+			}
+			a.Check(guarded, fname(fn)+"#float-to-int", cv.Pos(), "the float is converted to an integer only after it was found integral",
+				"a float ORDER BY key is converted to an integer without an integrality test: keys that differ only in their fraction compare equal, so ORDER BY leaves them in arbitrary order and LIMIT keeps arbitrary rows")
 		})
 	}
 	return n
